@@ -111,6 +111,10 @@ type Scenario struct {
 	AllowParkedLib bool
 	// NoStateCache switches the happens-before fingerprint pruning off.
 	NoStateCache bool
+	// ProcessState: the scenario probes process-wide (package-level) state of the code under test, so
+	// a replay in the same process continues from the polluted state; a violation is confirmed when
+	// the replays fail again, whatever the step.
+	ProcessState bool
 	// Fine turns the rewriter's statement-level points into schedule points (lock-misuse detection);
 	// it implies NoStateCache because the cache assumes data-race freedom.
 	Fine bool
@@ -399,6 +403,15 @@ func confirm(sc *Scenario, x *Exec, msg string) *ev.Violation {
 	for i := 0; i < 3; i++ {
 		w, y := runOnce(sc, x.Choices, true)
 		err := judge(sc, w, y)
+		if sc.ProcessState {
+			// the scenario probes process-wide state of the code under test: a polluted process fails
+			// again, but not necessarily at the same step
+			if err == nil {
+				return nil
+			}
+			log = y.Log
+			continue
+		}
 		if err == nil || y.Trace != x.Trace || y.Nondet != "" {
 			return nil
 		}
